@@ -18,7 +18,7 @@ for l in kf:
     m=re.match(r'known: property=(C\d+) sig=(.*?) :: (.*)',l)
     if m: known.append(f"* **{m.group(1)}** `{m.group(2)}` - {m.group(3)}")
 s=open('/verif/DESIGN.md').read()
-a=s.index('### 10.3 Genuine defects found and fixed'); b=s.index('### 10.4 Genuine defects recorded'); c=s.index('### 10.5 Seeded breaking changes')
+a=s.index('### 10.3 Genuine defects found and fixed'); b=s.index('### 10.4 Genuine defects recorded'); c=s.index('### 10.4a ') if '### 10.4a ' in s else s.index('### 10.5 Seeded breaking changes')
 head3=s[a:b]; head3=head3[:head3.index('\n* `')+1] if '\n* `' in head3 else head3
 head4=s[b:c]; head4=head4[:head4.index('\n* **')+1] if '\n* **' in head4 else head4
 s=s[:a]+head3+'\n'.join(rows)+'\n\n'+head4+'\n'.join(known)+'\n\n'+s[c:]
